@@ -10,6 +10,7 @@ require (
 	github.com/cockroachdb/pebble/v2 v2.1.6
 	github.com/davecgh/go-spew v1.1.1
 	github.com/ethereum/go-ethereum v1.17.5
+	github.com/go-playground/validator/v10 v10.30.3
 	github.com/libp2p/go-libp2p v0.48.0
 	github.com/sourcegraph/conc v0.3.1-0.20240121214520-5f936abd7ae8
 	github.com/starknet-io/starknet-p2p-specs v0.0.0-00010101000000-000000000000
@@ -53,7 +54,6 @@ require (
 	github.com/go-logr/stdr v1.2.2 // indirect
 	github.com/go-playground/locales v0.14.1 // indirect
 	github.com/go-playground/universal-translator v0.18.1 // indirect
-	github.com/go-playground/validator/v10 v10.30.3 // indirect
 	github.com/gogo/protobuf v1.3.2 // indirect
 	github.com/golang/snappy v1.0.1-0.20260716114414-9ae09f520e93 // indirect
 	github.com/google/gopacket v1.1.19 // indirect
